@@ -365,6 +365,37 @@ PurgeKeepsWhatRestartNeeds ==
           /\ SelectSeg(segs, Newest(V).i) > locks.p
           /\ ReadFrom(recs, segs, n, Newest(V)).err = ""
 
+(* The snapshotter next to the log (snap/snapshotter.go, node/raft.go startRaft):          *)
+(* SaveSnap writes the snapshot file <term>-<index>.snap first and the marker into the    *)
+(* log second; a restart asks ValidSnapshotEntries for the markers and loads the newest   *)
+(* file that is intact on disk AND marked valid in the log (LoadNewestAvailable), then    *)
+(* opens the log at it.  A file is [i, t, ok, x]: index, term, intact on disk, content id. *)
+NoSnapFile == [i |-> -1, t |-> -1]
+SnapCands(F, V) == {f \in F : f.ok /\ [i |-> f.i, t |-> f.t] \in V}
+NewestFile(C) == CHOOSE f \in C : \A g \in C : g.t < f.t \/ (g.t = f.t /\ g.i <= f.i)
+PickSnap(F, V) == IF SnapCands(F, V) = {} THEN NoSnapFile
+                  ELSE [i |-> NewestFile(SnapCands(F, V)).i, t |-> NewestFile(SnapCands(F, V)).t]
+
+\* every marker has its file (the file is written first); after a crash any subset of the
+\* files may be broken or gone, and a file whose marker never reached the log may exist.
+\* Whatever survives, the restart picks a snapshot the log knows and can be opened at - or
+\* none, and then the log still opens at its beginning (unless purge took that away, which
+\* PurgeKeepsWhatRestartNeeds covers for the intact newest file)
+SnapshotPickIsSound ==
+  mode \in {"append", "closed"} =>
+    \A n \in CrashFloor..Len(recs) :
+      LET V  == ValidSnaps(OnDisk(recs, n))
+          MF == {[i |-> m.i, t |-> m.t, ok |-> TRUE, x |-> 0] : m \in Markers(recs) \ {Snap0}}
+          orphan == [i |-> enti + 1, t |-> 9, ok |-> TRUE, x |-> 0]     \* newer than anything marked
+      IN \A S \in SUBSET MF :
+           LET p == PickSnap(S \cup {orphan}, V)
+           IN /\ p # [i |-> orphan.i, t |-> orphan.t]
+              /\ p # NoSnapFile => /\ p \in V
+                                   /\ ReadFrom(recs, segs, n, p).err \notin {"snapnotfound", "snapmismatch"}
+                                   \* (an older snapshot may sit behind a jump of the log: loud "gap")
+                                   /\ (locks.p = 0 => ReadFrom(recs, segs, n, p).err \in {"", "gap"})
+              /\ (p = NoSnapFile /\ locks.p = 0) => ReadFrom(recs, segs, n, Snap0).err \in {"", "gap"}
+
 \* reading from the segment the snapshot index selects gives what reading the whole log
 \* gives - except that stale entries of older segments (cut off by a rewrite at or below
 \* the snapshot index, which the index filter does not see) are not resurrected
